@@ -1004,6 +1004,20 @@ def binop(interp, op, a, b, inplace=False):
                 # valid as the inverse of r whenever r is duplicate-free (i.e. a and b are disjoint)
                 r.index_of = lambda t: z3.If(in_a(t), ia(t), n1 + ib(t))
             return r
+    if isinstance(op, (ast.BitOr, ast.BitAnd)) and (isinstance(a, (set, frozenset, V.SymSet)) and isinstance(b, (set, frozenset, V.SymSet))):
+        if isinstance(a, (set, frozenset)) and isinstance(b, (set, frozenset)) and not any(V.is_symbolic_key(x) for x in list(a) + list(b)):
+            return (a | b) if isinstance(op, ast.BitOr) else (a & b)
+        if isinstance(op, ast.BitOr):
+            if isinstance(a, (set, frozenset)) and not a:
+                return b
+            if isinstance(b, (set, frozenset)) and not b:
+                return a
+            return set_union(interp, lift_set(interp, a), lift_set(interp, b))
+        la, lb = lift_set(interp, a), lift_set(interp, b)
+        S = V.SymSet(interp.cx, "inter")
+        t = z3.Const("t!q", TenS)
+        interp.cx.assume(V.forall([t], S.contains(t) == z3.And(la.contains(t), lb.contains(t))), tag="set-intersection")
+        return S
     if isinstance(op, ast.BitOr):
         from .interp import SymObj
         if isinstance(a, SymObj):
@@ -1427,6 +1441,18 @@ def value_getattr(interp, obj, name):
                 interp.cx.assume(z3.Implies(z3.Not(b), z3.And(obj.contains(w), z3.Not(o.contains(w)))), tag="issubset")
                 return b
             return V.SymMethod(issub)
+        if name == "isdisjoint":
+            def isdisj(interp, other):
+                o = lift_set(interp, as_set_or_none(interp, other))
+                t = z3.Const("t!q", TenS)
+                b = interp.cx.fresh_bool("disjoint")
+                w = interp.cx.fresh_const("disjw", TenS)
+                interp.cx.assume(z3.Implies(b, V.forall([t], z3.Not(z3.And(obj.contains(t), o.contains(t))))), tag="isdisjoint")
+                interp.cx.assume(z3.Implies(z3.Not(b), z3.And(obj.contains(w), o.contains(w))), tag="isdisjoint")
+                return b
+            return V.SymMethod(isdisj)
+        if name == "union":
+            return V.SymMethod(lambda interp, other: set_union(interp, obj, lift_set(interp, as_set_or_none(interp, other))))
         if name == "intersection":
             def inter(interp, other):
                 o = lift_set(interp, as_set_or_none(interp, other))
